@@ -57,9 +57,15 @@ def run(ctx, acts, api):
         "TLC 1.8.0 and the projection directory -> abstract state in harness/src/layers.rs are trusted",
     ]
     # 1. the design
-    mc = vlib.tlc(ctx, "LayersMC.tla", "Layers_mc_quick.cfg" if quick else "Layers_mc_thorough.cfg", "mc",
-                  workers=8 if quick else 14, coverage=True, timeout=3000, heap="24g")
+    mc = vlib.tlc(ctx, "LayersMC.tla", "Layers_mc_quick.cfg", "mc", workers=8 if quick else 14, coverage=True, timeout=3000, heap="24g")
     vlib.tlc_must_pass(ctx, mc, "Layers model")
+    if not quick:
+        # the model with two full layers, more tokens, all flag combinations and foreign garbage has about
+        # 10^6 states x 440 transitions: explored by random simulation instead (all properties checked)
+        sim = vlib.tlc(ctx, "LayersMC.tla", "Layers_mc_thorough.cfg", "mc-sim", workers=14, simulate="num=4000", extra=["-depth", "60"],
+                       timeout=3000, heap="24g")
+        vlib.tlc_must_pass(ctx, sim, "Layers model (two full layers, simulation)")
+        ctx.cov["simulated_behaviours"] = "4000 behaviours of depth 60 of Layers_mc_thorough.cfg"
     needed = ["StructRequest", "HandleLayerD", "WriteMetadata", "WriteEnv", "WriteSboms", "WriteExecD", "WriteFile",
               "ReadEnv", "LifecycleRestore", "CacheLost", "ForeignGarbage"]
     missing = [a for a in needed if mc["coverage"].get(a, 0) == 0]
